@@ -26,9 +26,10 @@ Theorem C10_pattern_add_range_sound : forall s m a b g,
 Proof. exact add_range_rel_sound. Qed.
 Print Assumptions C10_pattern_add_range_sound.
 
-(* overflow-checked build: for a <= b no arithmetic step traps and the result equals the release one *)
+(* overflow-checked build: no arithmetic step traps for ANY glyph ids a, b (an inverted range saturates)
+   and the result equals the release one *)
 Theorem C10_pattern_add_range_no_overflow : forall s m a b,
-  a <= b -> b < 2 ^ 16 -> add_range_chk s m a b = Some (add_range_rel s m a b).
+  a < 2 ^ 16 -> b < 2 ^ 16 -> add_range_chk s m a b = Some (add_range_rel s m a b).
 Proof. exact add_range_chk_ok. Qed.
 Print Assumptions C10_pattern_add_range_no_overflow.
 
@@ -54,7 +55,7 @@ Proof. exact (d_add_range_Sound digest_shifts). Qed.
 Print Assumptions C10_add_range_sound.
 
 Theorem C10_add_range_no_overflow : forall d a b,
-  a <= b -> b < 2 ^ 16 ->
+  a < 2 ^ 16 -> b < 2 ^ 16 ->
   d_add_range_chk digest_shifts d a b = Some (d_add_range digest_shifts d a b).
 Proof. exact (d_add_range_chk_ok digest_shifts). Qed.
 Print Assumptions C10_add_range_no_overflow.
